@@ -82,6 +82,8 @@ def representations(c, kind, dom, m=2, n=2, N=2):
     # a CUQIarray built WITHOUT a geometry (default geometry) is a plain parameter vector: the model's own domain geometry applies
     if not dom.startswith('Image2D'):
         c.eq('forward_of_default_geometry_cuqiarray_is_forward_of_the_vector', np.asarray(model.forward(CUQIarray(p.copy()))), spec)
+        od = model.forward(CUQIarray(p.copy()))
+        c.holds('default_geometry_cuqiarray_in_gives_cuqiarray_out_as_range_parameters', isinstance(od, CUQIarray) and od.is_par and od.geometry == model.range_geometry, note=type(od).__name__)
     # history: the same array object is updated in place and used again (as samplers and optimisers do)
     q = c.vec('q', n)
     a[:] = q
